@@ -115,7 +115,7 @@ Proof. exact flatten_order_l. Qed.
    does not depend on the fuel (so Err out_of_fuel is never the result with
    fuel_for t, unless a mangler itself returned that code) *)
 Theorem translate_fuel_enough : forall f ms fs nm, Forall depth_ok ms ->
-  fuel_for (TStruct fs nm) <= f ->
+  (fuel_for (TStruct fs nm) <= f)%nat ->
   translate f ms (TStruct fs nm) = translate (fuel_for (TStruct fs nm)) ms (TStruct fs nm).
 Proof. exact translate_fuel_enough_l. Qed.
 
